@@ -327,7 +327,7 @@ class Driver:
             return LevyProcess(A.make_model(MODELS[self.model_name]))
         if cls in ("chain", "coupling-1d"):
             model = A.make_model(MODELS[self.model_name])
-            grid = CTMCUniformGrid.create_from_fixed_nb_of_points(h=0.04, nb_of_points=12, dimension=1)
+            grid = CTMCUniformGrid.create_from_fixed_nb_of_points(h=0.03, nb_of_points=24, dimension=1)
             if cls == "chain":
                 from rpylib.process.markovchain.markovchain import MarkovChainProcess
 
@@ -336,7 +336,7 @@ class Driver:
 
             return CouplingMarkovChain(model, SamplingMethod.INVERSION, grid)
         model = A.make_copula_model(COPULA)
-        grid = CTMCUniformGrid.create_from_fixed_nb_of_points(h=0.08, nb_of_points=6, dimension=2)
+        grid = CTMCUniformGrid.create_from_fixed_nb_of_points(h=0.06, nb_of_points=10, dimension=2)
         if cls == "copula-chain":
             from rpylib.process.markovchain.markovchainlevycopula import MarkovChainLevyCopula
 
@@ -392,23 +392,48 @@ class Driver:
 
     def _choose_state_uniforms(self):
         """Uniforms for the state sampler that map to pairwise distinct states (so that jump sizes are identifiable), found
-        through the sampler's public `sample_with_u`. Falls back to a fixed list."""
+        through the sampler's public `sample_with_u` on a 400-point lattice. States are taken greedily so that, as long as
+        possible, all subset sums of the chosen state increments are distinct (a partial sum then identifies the jumps in
+        it); odd increments first, because only those exercise the coupling. Falls back to a fixed list."""
         if self.cls == "levy":
             return
         sampler = self.proc.sampling
-        us, seen = [], set()
+        found = {}
         if hasattr(sampler, "sample_with_u"):
-            for k in range(48):
-                u = (k + 0.5) / 48.0
-                if u > 0.97:
+            for k in range(400):
+                u = (k + 0.5) / 400.0
+                if u > 0.985:
                     break
                 s = tuple(int(v) for v in np.atleast_1d(sampler.sample_with_u(u)))
-                if s not in seen:
-                    seen.add(s)
-                    us.append(u)
-        # interleave so that consecutive draws differ in parity where possible
-        self.rng.state_u = us[:10] if len(us) >= 4 else [0.07, 0.19, 0.31, 0.43, 0.59, 0.71, 0.83, 0.93]
-        self.state_u_states = sorted(seen)
+                found.setdefault(s, []).append(u)
+        cand = sorted(found, key=lambda s: (all(x % 2 == 0 for x in s), sum(abs(x) for x in s), s))
+        chosen, sums = [], {tuple([0] * self.dim)}
+        rest = []
+        for s in cand:
+            diffs = {tuple(a - b for a, b in zip(x, y)) for x in sums for y in sums}
+            if s in diffs or tuple(-a for a in s) in diffs:
+                rest.append(s)
+                continue
+            chosen.append(s)
+            sums |= {tuple(a + b for a, b in zip(x, s)) for x in sums}
+            if len(chosen) >= 7:
+                break
+        states = chosen + rest[: max(0, 6 - len(chosen))]
+        if len(states) >= 4:
+            # alternate parity classes where possible: odd, even, odd, ...
+            odd = [s for s in states if any(x % 2 for x in s)]
+            even = [s for s in states if not any(x % 2 for x in s)]
+            order = []
+            while odd or even:
+                if odd:
+                    order.append(odd.pop(0))
+                if even:
+                    order.append(even.pop(0))
+            self.rng.state_u = [found[s][len(found[s]) // 2] for s in order]
+            self.state_u_states = order
+        else:
+            self.rng.state_u = [0.07, 0.19, 0.31, 0.43, 0.59, 0.71, 0.83, 0.93]
+            self.state_u_states = []
 
     # -- one path --------------------------------------------------------------------------------------------------
     def simulate(self, counts=(), times=(), reload=True):
